@@ -72,9 +72,11 @@ Fixpoint reach (fuel : nat) (P : rel) (x y : tag) : bool :=
   match fuel with
   | O => false
   | S f =>
-      existsb (fun q => tag_eqb (fst q) x
-                        && (tag_eqb (snd q) y
-                            || reach f (filter (fun e => negb (tag_eqb (fst e) x)) P) (snd q) y)) P
+      (* [if] rather than [&&]/[||]: vm_compute evaluates both operands of those *)
+      existsb (fun q => if tag_eqb (fst q) x
+                        then (if tag_eqb (snd q) y then true
+                              else reach f (filter (fun e => negb (tag_eqb (fst e) x)) P) (snd q) y)
+                        else false) P
   end.
 Definition tc_dec (P : rel) (x y : tag) : bool := reach (length P) P x y.
 
